@@ -88,6 +88,10 @@ def run(ck: Check) -> int:
                ParameterSection.match, sum_.OrType.iter_type_args, sum_.OrType.iter_values, adt.get_type_layout, adt.wrap_parameters,
                adt.ADTMixin.get_flat_args, adt.ADTMixin.get_flat_values):
         ck.function(fn)
+
+    from props.C13_P import run_P
+    run_P(ck)
+
     from bounded.C11_validate import validate
     nval, problems = validate()
     if problems:
@@ -119,6 +123,11 @@ def run(ck: Check) -> int:
                          replay='props.C13:replay', wclass=f['wclass'])
     ck.extra['failing_classes'] = {f'{c} | {w}': n for (c, w), n in sorted(seen_w.items())}
     ck.exhaustive = False
-    return ck.finish('exploration',
+    return ck.finish('other',
+                     'S (props/C13_P.py): create_type root-name rule, list_entrypoints, from_parameters / to_parameters interpreted from the real ASTs on union '
+                     'trees with OPAQUE leaf argument types and values (all argument values; Micheline round trip of a leaf = C11 hypothesis) against the Tezos '
+                     'rules of specs/entrypoints.py: every tree of depth <= 2 with every placement of annotations and of the names default / root, trees of '
+                     'depth 3 with the empty, singleton and full placements, non-union roots; per type the listed names and node types, for every full value the '
+                     'deepest-entrypoint call that denotes it and its inverse, for every entrypoint x argument the built value and the call it converts back to; '
                      'R (bounded): list_entrypoints against the Tezos rules (spec validated on recorded RPC answers); from_parameters/to_parameters '
                      'round trips judged by structural observation and by reading the (entrypoint, value) pair with the Tezos resolution rules')
